@@ -252,8 +252,19 @@ pub fn random_req(rng: &mut Rng, body_max: usize) -> (ReqCfg, Vec<u8>) {
         cfg.added.push(("cookie".into(), b"k=v".to_vec()));
     }
     let mut body = vec![];
+    if rng.chance(1, 6) {
+        // an explicit Host header (then the library must not add its own)
+        let h = split_uri(&cfg.uri);
+        cfg.orig.push(("host".into(), host_of(&h).into_bytes()));
+    }
+    if crate::drive::needs_body(method) && rng.chance(1, 6) {
+        // despite-method on a method that has a body anyway: must be a no-op
+        cfg.despite = true;
+        cfg.despite_twice = rng.chance(1, 2);
+    }
     if crate::drive::needs_body(method) || (rng.chance(1, 8) && {
         cfg.despite = true;
+        cfg.despite_twice = rng.chance(1, 3);
         true
     }) {
         let n = match rng.below(6) {
@@ -265,7 +276,7 @@ pub fn random_req(rng: &mut Rng, body_max: usize) -> (ReqCfg, Vec<u8>) {
         body = payload(n, rng.below(250) as u8);
         match rng.below(3) {
             0 => cfg.orig.push(("content-length".into(), n.to_string().into_bytes())),
-            1 => cfg.orig.push(("transfer-encoding".into(), b"chunked".to_vec())),
+            1 => cfg.orig.push(("transfer-encoding".into(), rng.pick(&[&b"chunked"[..], &b"chunked"[..], &b"Chunked"[..], &b"CHUNKED"[..]]).to_vec())),
             _ => {}
         }
         if rng.chance(1, 3) {
